@@ -836,10 +836,35 @@ def _inlinable(h) -> bool:
         if isinstance(n, ast.Name) and n.id == h.name:
             return False
     if rets and not _tail_returns_only(h.body):
-        return False
+        # returns out of loops / the middle of the body: the body can only
+        # be copied verbatim, where "return" means the same thing for the
+        # caller -- `return h(..)`, or a bare `h(..)` in tail position when
+        # the helper returns nothing
+        if all(_is_plain_return(n) for n in _own_nodes(h)
+               if isinstance(n, ast.Return)):
+            return 'anyplain'
+        return 'any'
     # nested functions / lambdas / comprehensions close over the helper's
     # names; renaming through them is handled, but `nonlocal` is not
-    return True
+    return 'tail'
+
+
+def _in_tail_position(fn, st) -> bool:
+    def tail(block) -> bool:
+        k = len(block) - 1
+        while k >= 0 and _is_plain_return(block[k]) and block[k] is not st:
+            k -= 1
+        if k < 0:
+            return False
+        s_ = block[k]
+        if s_ is st:
+            return True
+        if isinstance(s_, ast.If):
+            return tail(s_.body) or tail(s_.orelse)
+        if isinstance(s_, (ast.With, ast.AsyncWith)):
+            return tail(s_.body)
+        return False
+    return tail(fn.body)
 
 
 def _call_of(st, is_async):
@@ -853,6 +878,8 @@ def _call_of(st, is_async):
         v, form = st.value, 'assign'
     elif isinstance(st, ast.Return) and st.value is not None:
         v, form = st.value, 'return'
+    elif isinstance(st, ast.AugAssign):
+        v, form = st.value, 'aug'
     else:
         return None, None
     if isinstance(v, ast.Await):
@@ -952,7 +979,65 @@ def _setline(nodes, line):
                 x.end_lineno = line
 
 
-def _inline_at(caller, blk, i, h, call, form, bound_self, uid) -> bool:
+def _live_after(caller, st) -> Optional[Set[str]]:
+    """names whose value at the end of statement st may still be read
+    (a load reachable from st with no store in between); None when the CFG
+    cannot be built"""
+    try:
+        from .cfg import CFG
+        g = CFG(caller)
+        ids = g.nodes_of(st)
+        if not ids:
+            return None
+        live: Set[str] = set()
+        # per node: loads, stores (loads of `x = x + 1` come first)
+        info = {}
+        for n in g.nodes:
+            ld, sto = set(), set()
+            for e in g.node_exprs(n):
+                for x in ast.walk(e):
+                    if isinstance(x, ast.Name):
+                        (ld if isinstance(x.ctx, ast.Load) else sto).add(
+                            x.id)
+                    elif isinstance(x, (ast.FunctionDef,
+                                        ast.AsyncFunctionDef)):
+                        sto.add(x.name)
+            if isinstance(n.ast, (ast.FunctionDef, ast.AsyncFunctionDef,
+                                  ast.ClassDef)):
+                # a nested definition reads its free names whenever called
+                ld |= {x.id for x in ast.walk(n.ast)
+                       if isinstance(x, ast.Name)}
+                sto.add(n.ast.name)
+            if isinstance(n.ast, ast.AugAssign) and isinstance(
+                    n.ast.target, ast.Name):
+                ld.add(n.ast.target.id)
+            info[n.id] = (ld, sto)
+        allnames = set()
+        for ld, sto in info.values():
+            allnames |= ld
+        start = [s_ for i_ in ids for s_, _l in g.nodes[i_].succ]
+        for name in allnames:
+            seen = set()
+            stack = list(start)
+            while stack:
+                x = stack.pop()
+                if x in seen:
+                    continue
+                seen.add(x)
+                ld, sto = info.get(x, (set(), set()))
+                if name in ld:
+                    live.add(name)
+                    break
+                if name in sto:
+                    continue
+                stack.extend(s_ for s_, _l in g.nodes[x].succ)
+        return live
+    except Exception:
+        return None
+
+
+def _inline_at(caller, blk, i, h, call, form, bound_self, uid,
+               verbatim: bool = False) -> bool:
     import copy
     st = blk[i]
     binding = _bind_args(h, call, bound_self)
@@ -992,6 +1077,10 @@ def _inline_at(caller, blk, i, h, call, form, bound_self, uid) -> bool:
                                               ast.AsyncFunctionDef,
                                               ast.Lambda)):
             nested |= _names_in(x)
+    lv = _live_after(caller, st)
+    if lv is not None:
+        # exact: only names still live after the call are in the way
+        later = lv
     # names the call statement itself binds (targets) are rebound right
     # after the inlined body: not a collision
     tgt_names = set()
@@ -1030,6 +1119,20 @@ def _inline_at(caller, blk, i, h, call, form, bound_self, uid) -> bool:
         ret = tr.visit(ret)
     out = [ast.Assign(targets=[ast.Name(id=n, ctx=ast.Store())],
                       value=copy.deepcopy(a)) for n, a in prelude]
+    if verbatim:
+        if ret is not None:
+            body.append(ast.Return(value=ret))
+        out += body
+        if form == 'return' and not (body and isinstance(
+                body[-1], (ast.Return, ast.Raise))):
+            out.append(ast.Return(value=ast.Constant(value=None)))
+        if not out:
+            out = [ast.Pass()]
+        for k_, s_ in enumerate(out):
+            ast.fix_missing_locations(s_)
+            _setline([s_], line + (k_ + 1) * 1e-4)
+        blk[i:i + 1] = out
+        return True
     if multi:
         tgt0 = None
         if form == 'assign':
@@ -1041,6 +1144,11 @@ def _inline_at(caller, blk, i, h, call, form, bound_self, uid) -> bool:
             if form == 'assign':
                 return [ast.Assign(
                     targets=[copy.deepcopy(tgt0)],
+                    value=val if val is not None
+                    else ast.Constant(value=None))]
+            if form == 'aug':
+                return [ast.AugAssign(
+                    target=copy.deepcopy(st.target), op=st.op,
                     value=val if val is not None
                     else ast.Constant(value=None))]
             if val is None or all(isinstance(x, _PURE)
@@ -1067,6 +1175,10 @@ def _inline_at(caller, blk, i, h, call, form, bound_self, uid) -> bool:
             else:
                 out.append(ast.AnnAssign(target=tgt, annotation=st.annotation,
                                          value=val, simple=st.simple))
+    elif form == 'aug':
+        out.append(ast.AugAssign(
+            target=st.target, op=st.op,
+            value=ret if ret is not None else ast.Constant(value=None)))
     else:
         out.append(ast.Return(value=ret))
     if not out:
@@ -1075,6 +1187,56 @@ def _inline_at(caller, blk, i, h, call, form, bound_self, uid) -> bool:
         ast.fix_missing_locations(s)
         _setline([s], line + (k + 1) * 1e-4)
     blk[i:i + 1] = out
+    return True
+
+
+def _hoist_nested_call(blk, i, is_target, uid) -> bool:
+    """`return (q, h(q))` -> `_xh = h(q); return (q, _xh)` when the call to
+    a new helper is the only thing in the statement that is not a plain
+    read (names, attributes, constants, displays and calls of plain
+    callables on such reads): moving it first keeps the order of effects"""
+    st = blk[i]
+    if not isinstance(st, (ast.Return, ast.Assign, ast.Expr, ast.AugAssign,
+                           ast.AnnAssign)) or st.value is None:
+        return False
+    root = st.value
+    found = []
+
+    def scan(n, top):
+        if isinstance(n, ast.Call) and is_target(n) and not top:
+            found.append(n)
+            return all(_pure(a) for a in list(n.args) +
+                       [k.value for k in n.keywords])
+        if isinstance(n, ast.Call):
+            if is_target(n):
+                return False       # the whole value: a plain site
+            return _pure(n.func) and all(
+                scan(a, False) for a in list(n.args) +
+                [k.value for k in n.keywords])
+        if isinstance(n, (ast.Tuple, ast.List, ast.Set)):
+            return all(scan(e, False) for e in n.elts)
+        if isinstance(n, ast.Dict):
+            return all(scan(e, False) for e in list(n.keys) + list(n.values)
+                       if e is not None)
+        if isinstance(n, ast.Starred):
+            return scan(n.value, False)
+        return _pure(n)
+    if not scan(root, True) or len(found) != 1:
+        return False
+    call = found[0]
+    tmp = f'_xh{uid}'
+
+    class R(ast.NodeTransformer):
+        def visit_Call(self, node):
+            if node is call:
+                return ast.copy_location(ast.Name(id=tmp, ctx=ast.Load()),
+                                         node)
+            return self.generic_visit(node)
+    new_assign = ast.copy_location(ast.Assign(
+        targets=[ast.Name(id=tmp, ctx=ast.Store())], value=call), st)
+    ast.fix_missing_locations(new_assign)
+    st.value = R().visit(st.value)
+    blk.insert(i, new_assign)
     return True
 
 
@@ -1099,7 +1261,8 @@ def undo_extractions(tree: ast.Module, modname: str, known: Set[str],
     # innermost helpers first (a helper extracted from a helper)
     for q, (h, hcls, container) in sorted(
             new.items(), key=lambda kv: -kv[1][0].lineno):
-        if not _inlinable(h):
+        mode = _inlinable(h)
+        if not mode:
             continue
         is_async = isinstance(h, ast.AsyncFunctionDef)
         is_static = any(isinstance(d, ast.Name) and d.id == 'staticmethod'
@@ -1109,6 +1272,23 @@ def undo_extractions(tree: ast.Module, modname: str, known: Set[str],
         call_funcs = set()
         owners = [v[0] for qq, v in def_table(tree, modname).items()
                   if v[0] is not h]
+
+        def _is_h(c, h=h, hcls=hcls):
+            f = c.func
+            if hcls is None:
+                return isinstance(f, ast.Name) and f.id == h.name
+            return isinstance(f, ast.Attribute) and f.attr == h.name and \
+                isinstance(f.value, ast.Name) and f.value.id in (
+                    'self', 'cls')
+        if not is_async:
+            for caller in owners:
+                for _o, _f, blk in list(_blocks(caller)):
+                    k_ = 0
+                    while k_ < len(blk):
+                        uid += 1
+                        if _hoist_nested_call(blk, k_, _is_h, uid):
+                            k_ += 1
+                        k_ += 1
         for caller in owners:
             for _o, _f, blk in list(_blocks(caller)):
                 for st in blk:
@@ -1155,7 +1335,16 @@ def undo_extractions(tree: ast.Module, modname: str, known: Set[str],
                 ok_all = False
                 continue
             uid += 1
-            if _inline_at(inner, blk, i, h, c, form, recv, uid):
+            verbatim = False
+            if mode != 'tail':
+                if form == 'return' or (
+                        mode == 'anyplain' and form == 'expr'
+                        and _in_tail_position(inner, st)):
+                    verbatim = True
+                else:
+                    ok_all = False
+                    continue
+            if _inline_at(inner, blk, i, h, c, form, recv, uid, verbatim):
                 done += 1
                 renumber(caller)
             else:
